@@ -29,7 +29,8 @@ RULE += (
     "not. One unit uses deduplicated functions without named parameters (def f(*ids), def f(**opts)): the "
     "arguments still are the key, dirty() of another key changes nothing. Another unit repeats a call (two "
     "spellings, function / method) after the thread's scheduler was replaced once or twice by "
-    "scheduler.reset(): same thread, same key, same task."
+    "scheduler.reset(): same thread, same key, same task. Re-entry from an except handler follows either a "
+    "failed task or a future failed by hand (an error object that was never raised)."
 )
 ASSUMPTIONS = [
     "calls issued while the in-flight task's own step is on the Python stack are unconstrained by the statement and leave the model unchanged",
